@@ -189,3 +189,30 @@ def replay_application(inputs, obl):
     if problems:
         return dict(confirmed=True, detail='; '.join(problems[:3]))
     return dict(confirmed=False, detail='recursion through .f and projections with list arguments give the reference values')
+
+
+def replay_call_vs_body(inputs, obl):
+    """f(a;b) against the body with the arguments substituted, for bodies whose compiled form can fail where the interpreter has a
+    defined answer (division by zero), with scalar and list arguments, literal and held in variables"""
+    from klongpy import KlongInterpreter
+    from klongpy.core import kg_write
+    problems = []
+    for body, args in (('x%y', ['1', '0']), ('x%y', ['[1 2]', '0']), ('(x+1)%y', ['3', '0']), ('x%y-y', ['5', '2']), ('x!y', ['7', '0'])):
+        k = KlongInterpreter()
+        k('f::{' + body + '}')
+        sub = body
+        for nm, a in zip('xy', args):
+            sub = sub.replace(nm, '(' + a + ')')
+        try:
+            want = kg_write(k(sub), k._backend)
+        except Exception as e:
+            want = 'raises ' + type(e).__name__
+        try:
+            got = kg_write(k(f"f({';'.join(args)})"), k._backend)
+        except Exception as e:
+            got = 'raises ' + type(e).__name__
+        if got != want:
+            problems.append(f"f::{{{body}}}; f({';'.join(args)}) gives {got}, the substituted body {sub} gives {want}")
+    if problems:
+        return dict(confirmed=True, detail='; '.join(problems[:3]))
+    return dict(confirmed=False, detail='call form and substituted body agree where compiled code fails')
